@@ -344,6 +344,63 @@ func buildTx(r *common.Rand, sh shape, kind string) built {
 // sign every input through the library; returns the signed spec
 func sign(b built, ht uint8, viaFillAll bool) (txgen.TxSpec, error) {
 	tx := txgen.Build(b.spec)
+	if err := signTx(tx, b, ht, viaFillAll); err != nil {
+		return txgen.TxSpec{}, err
+	}
+	return txgen.FromTx(tx), nil
+}
+
+// resignHistory: the same transaction object is signed, edited in place in one field (counts unchanged: a
+// fee bump, a sequence or locktime change, a different outpoint) and signed again; every signature of the
+// second round must be accepted for the transaction as it then is.
+func resignHistory(r *common.Rand, b built, ht uint8, flags uint32, viaFillAll bool, tw twin) {
+	tx := txgen.Build(b.spec)
+	if err := signTx(tx, b, ht, viaFillAll); err != nil {
+		return // reported by the main flow
+	}
+	edits := 1 + r.Intn(2)
+	what := ""
+	for e := 0; e < edits; e++ {
+		switch k := r.Intn(6); {
+		case k == 0 && len(tx.Outputs) > 0:
+			o := tx.Outputs[r.Intn(len(tx.Outputs))]
+			o.Satoshis ^= 1 + uint64(r.Intn(1000))
+			what += "output-value "
+		case k == 1 && len(tx.Outputs) > 0:
+			o := tx.Outputs[r.Intn(len(tx.Outputs))]
+			o.LockingScript = bscript.NewFromBytes(append(append([]byte{}, (*o.LockingScript)...), 0x61))
+			what += "output-script "
+		case k == 2:
+			tx.Inputs[r.Intn(len(tx.Inputs))].SequenceNumber ^= 1 + uint32(r.Intn(1000))
+			what += "sequence "
+		case k == 3:
+			tx.Inputs[r.Intn(len(tx.Inputs))].PreviousTxOutIndex ^= 1 + uint32(r.Intn(1000))
+			what += "vout "
+		case k == 4:
+			tx.LockTime ^= 1 + uint32(r.Intn(1000))
+			what += "locktime "
+		default:
+			tx.Version ^= 1 + uint32(r.Intn(3))
+			what += "version "
+		}
+	}
+	if err := signTx(tx, b, ht, viaFillAll); err != nil {
+		c.Violate("sign-verify/second-signing-fails", what+err.Error(), tw)
+		return
+	}
+	s2 := txgen.FromTx(tx)
+	c.Tally("resign/" + strings.TrimSpace(what))
+	for i := range s2.Ins {
+		if ok, msg := accepts(s2, i, flags); !ok {
+			tw2 := tw
+			tw2.Tx = s2
+			c.Violate("sign-verify/rejects-own-signature(re-signed after in-place edit)", fmt.Sprintf("input %d after editing %s: %s", i, what, msg), tw2)
+			return
+		}
+	}
+}
+
+func signTx(tx *bt.Tx, b built, ht uint8, viaFillAll bool) error {
 	var err error
 	var pm string
 	var panicked bool
@@ -364,12 +421,9 @@ func sign(b built, ht uint8, viaFillAll bool) (txgen.TxSpec, error) {
 		})
 	}
 	if panicked {
-		return txgen.TxSpec{}, fmt.Errorf("panic: %s", pm)
+		return fmt.Errorf("panic: %s", pm)
 	}
-	if err != nil {
-		return txgen.TxSpec{}, err
-	}
-	return txgen.FromTx(tx), nil
+	return err
 }
 
 func cloneSpec(s txgen.TxSpec) txgen.TxSpec {
@@ -501,6 +555,7 @@ func runCase(r *common.Rand, sh shape, kind string, ht uint8, flags uint32, viaF
 	if forkid {
 		inMemorySpentValue(s, sh.idx, flags, tw)
 	}
+	resignHistory(r, b, ht, flags, viaFillAll, tw)
 	// every input: the unlocking script is push(sig ++ [requested type]) push(pubkey); the interpreter accepts
 	type verEntry struct {
 		pk, sig, digest []byte
@@ -646,7 +701,7 @@ func main() {
 			}
 		}
 	}
-	c.Stats.Rule = "each case: a transaction shape (inputs 1..4, outputs 0..4, signed position; quick: 12 shapes covering idx<nouts, idx=nouts-1, idx=nouts, idx>nouts; thorough: all 50, four rounds of fresh keys and fields) x one of the 6 FORKID types (flags FORKID|GENESIS) or 6 legacy types (flags none / GENESIS) x P2PKH or P2PKH-inscription previous output (built with the library: NewP2PKHFromPubKeyBytes, Tx.Inscribe), fresh seeded keys per input, random fields, pairwise distinct outputs; all inputs signed through unlocker.Simple (tx.FillInput; tx.FillAllInputs for ALL|FORKID on every other shape), every input run through the real interpreter; then EVERY single-field mutation at EVERY position (version, locktime, per input txid/vout/sequence, per output value/script, output insert at 0..n and remove, input insert at 0..n and remove (not the signed one), spent value, spent script (+OP_NOP; inscription payload byte)) applied to a copy, interpreter re-run on the signed input and preimage recomputed. A case is distinct by (kind, type, shape, position, preimage) and non-trivial when at least one mutation was evaluated; Coq re-computes all preimages, the table and the interpreter model verdicts."
+	c.Stats.Rule = "each case: a transaction shape (inputs 1..4, outputs 0..4, signed position; quick: 12 shapes covering idx<nouts, idx=nouts-1, idx=nouts, idx>nouts; thorough: all 50, four rounds of fresh keys and fields) x one of the 6 FORKID types (flags FORKID|GENESIS) or 6 legacy types (flags none / GENESIS) x P2PKH or P2PKH-inscription previous output (built with the library: NewP2PKHFromPubKeyBytes, Tx.Inscribe), fresh seeded keys per input, random fields, pairwise distinct outputs; all inputs signed through unlocker.Simple (tx.FillInput; tx.FillAllInputs for ALL|FORKID on every other shape), every input run through the real interpreter; then EVERY single-field mutation at EVERY position (version, locktime, per input txid/vout/sequence, per output value/script, output insert at 0..n and remove, input insert at 0..n and remove (not the signed one), spent value, spent script (+OP_NOP; inscription payload byte)) applied to a copy, interpreter re-run on the signed input and preimage recomputed; plus, per case, a signing history on one object (sign, edit one or two fields in place keeping the counts, sign again, every input must verify). A case is distinct by (kind, type, shape, position, preimage) and non-trivial when at least one mutation was evaluated; Coq re-computes all preimages, the table and the interpreter model verdicts."
 	c.Finish()
 }
 
